@@ -16,10 +16,11 @@ package cluster
 // the chosen host satisfies c05Judge against the observed set. Health is fixed
 // during an execution (every pattern over the four addresses is a case).
 //
-// Randomness: the balancers built inside an execution seed their sources from
-// the virtual clock of the scheduler (constant), the round-robin factory's
-// source is replaced by a constant source whose value is a case parameter
-// (every initial-cursor residue). Draws are enumerated in parts 1 and 2; here
+// Randomness: sources created inside an execution are deterministic (the
+// instrumented build shims math/rand.NewSource and time.Now: a per-execution
+// stream / the scheduler's virtual clock), the round-robin factory's source
+// (created at package init) is replaced by a constant source whose value is a
+// case parameter (every initial-cursor residue). Draws are enumerated in parts 1 and 2; here
 // they are fixed per case so that an execution is a function of its schedule.
 
 import (
